@@ -64,6 +64,16 @@ func (c *caseT) label() string {
 	return fmt.Sprintf("%s/%s/%s[%s]", c.Op.Arch, fmtLabel(c.Op), c.Op.Name, c.Var.Name)
 }
 
+// encHex prints the instruction's bytes (the decoder's ByteSize can exceed
+// the 8 packed bytes when it counts one literal twice, e.g. v_madak with a literal SRC0).
+func encHex(c *caseT) string {
+	n := c.Inst.ByteSize
+	if n > len(c.Bytes) {
+		n = len(c.Bytes)
+	}
+	return hex.EncodeToString(c.Bytes[:n])
+}
+
 func fmtLabel(o *opInfo) string {
 	if o.Format == lib.VOP3 {
 		if o.IsVOP3b {
@@ -229,6 +239,11 @@ func (d *discovery) discoverOp(ctx *wctx, a lib.Arch, f lib.Format, op int) *opI
 	o := &opInfo{Arch: a, Format: f, Opcode: op, Name: inst.InstName, FmtName: inst.FormatName, IsVOP3b: inst.FormatType == insts.VOP3b}
 	o.MaskOp = f == lib.VOP3 && (strings.Contains(o.Name, "cndmask") || strings.Contains(o.Name, "addc") || strings.Contains(o.Name, "subb"))
 	o.Compare = strings.HasPrefix(o.Name, "v_cmp")
+	// fields the opcode does not use are packed as zero
+	noSrc1, noSrc2 := f == lib.VOP3 && inst.Src1 == nil, f == lib.VOP3 && inst.Src2 == nil
+	noData0 := (f == lib.DS && inst.Data == nil) || (f == lib.FLAT && strings.Contains(o.Name, "load"))
+	noData1 := f == lib.DS && inst.Data1 == nil
+	noDst := (f == lib.DS && inst.Dst == nil) || (f == lib.FLAT && strings.Contains(o.Name, "store"))
 	st := ctx.st[kindOf(f)]
 	mach := ctx.m[a]
 	for vi, va := range vars {
@@ -245,6 +260,7 @@ func (d *discovery) discoverOp(ctx *wctx, a lib.Arch, f lib.Format, op int) *opI
 				continue
 			}
 		}
+		va.NoSrc1, va.NoSrc2, va.NoData0, va.NoData1, va.NoDst = noSrc1, noSrc2, noData0, noData1, noDst
 		bytesV := lib.Encode(f, op, va, o.IsVOP3b)
 		in, msg := decode(a, bytesV)
 		ex := fmt.Sprintf("%s %s [%s]", key, o.Name, va.Name)
@@ -253,12 +269,13 @@ func (d *discovery) discoverOp(ctx *wctx, a lib.Arch, f lib.Format, op int) *opI
 			continue
 		}
 		if vi > 0 && f == lib.VOP3 {
-			if (va.Src2 != vars[0].Src2 && !o.MaskOp && in.Src2 == nil) || (va.Src1 != vars[0].Src1 && in.Src1 == nil) {
+			if (va.Src2 != vars[0].Src2 && !o.MaskOp && noSrc2) || (va.Src1 != vars[0].Src1 && noSrc1) {
 				continue // the decoder ignores that field for this opcode: identical to the canonical form
 			}
 		}
 		c := &caseT{Op: o, Var: va, Bytes: bytesV, Inst: in, Kind: kindOf(f)}
 		c.Shape = lib.Shape{Format: f, Variant: va, W: widths(f, in)}
+		c.Shape.Addr64 = f == lib.FLAT && in.Addr != nil && in.Addr.RegCount == 2
 		// canonical state: all lanes active, pattern 0
 		lib.Build(st.in, &c.Shape, 0, allLanes, false)
 		oc := mach.Run(in, st.in, st.out)
@@ -376,7 +393,7 @@ var (
 func fail(order int64, c *caseT, cause, msg string, rc replayCase) {
 	sig := fmt.Sprintf("%s/%s/%s/%s", c.Op.Arch, fmtLabel(c.Op), c.Op.Name, cause)
 	rc.Arch, rc.Format, rc.Opcode, rc.Inst, rc.Variant = c.Op.Arch.String(), c.Op.Format.String(), c.Op.Opcode, c.Op.Name, c.Var.Name
-	rc.Encoding = hex.EncodeToString(c.Bytes[:c.Inst.ByteSize])
+	rc.Encoding = encHex(c)
 	failMu.Lock()
 	defer failMu.Unlock()
 	if f, ok := failures[sig]; ok && f.order <= order {
@@ -682,9 +699,9 @@ func runUnit(ctx *wctx, c *caseT, p int, ex lib.NamedExec, poison bool, cfg *tie
 	for pi := range cfg.perms {
 		np := &cfg.perms[pi]
 		lib.Permute(st.in2, st.in, &np.P, c.Var.VCCData)
-		oc2 := m.Run(c.Inst, st.in2, st.out2)
+		oc2 := m.RunInPlace(c.Inst, st.in2)
 		n++
-		if cause, msg := checkEquiv(c, &np.P, st.out, st.out2, oc, oc2); cause != "" {
+		if cause, msg := checkEquiv(c, &np.P, st.out, st.in2, oc, oc2); cause != "" {
 			rc := base
 			rc.Kind, rc.PermName = "equivariance", np.Name
 			for _, x := range np.P {
@@ -699,9 +716,9 @@ func runUnit(ctx *wctx, c *caseT, p int, ex lib.NamedExec, poison bool, cfg *tie
 			for _, mod := range [2]string{"values", "exec"} {
 				st.in2.CopyFrom(st.in)
 				applyMod(c, st.in2, st.alt, p, j, mod, poison)
-				ocB := m.Run(c.Inst, st.in2, st.out2)
+				ocB := m.RunInPlace(c.Inst, st.in2)
 				n++
-				if cause, msg := checkLocal(c, p, j, mod, st.out, st.out2, oc, ocB); cause != "" {
+				if cause, msg := checkLocal(c, p, j, mod, st.out, st.in2, oc, ocB); cause != "" {
 					rc := base
 					rc.Kind, rc.Lane, rc.Mod = "locality", j, mod
 					fail(order, c, cause, fmt.Sprintf("EXEC=%s pattern %s: %s", hx(ex.Mask), lib.PatternNames[p], msg), rc)
@@ -797,6 +814,7 @@ var scalarFormats = []lib.Format{lib.SOP2, lib.SOP1, lib.SOPC, lib.SOPK, lib.SOP
 
 func main() {
 	list := flag.Bool("list", false, "print the discovered opcode tables and exit")
+	encs := flag.Bool("encodings", false, "print every checked encoding (for cross-checking the field packing with llvm-mc) and exit")
 	r := harness.Start("C06", "exploration")
 	log.SetOutput(io.Discard) // log.Panicf of the handlers prints before it panics
 	for a := range disasm {
@@ -843,6 +861,16 @@ func main() {
 		printTables(vd, sd, scalarExc, dppNote)
 		os.Exit(0)
 	}
+	if *encs {
+		for _, d := range []*discovery{vd, sd} {
+			for _, o := range d.Ops {
+				for _, c := range o.Cases {
+					fmt.Printf("%s\t%s\t%d\t%s\t%s\t%s\n", o.Arch, fmtLabel(o), o.Opcode, o.Name, c.Var.Name, encHex(c))
+				}
+			}
+		}
+		os.Exit(0)
+	}
 
 	// --- enumeration
 	allExec := lib.ExecAlphabet()
@@ -850,9 +878,9 @@ func main() {
 	cfg := &tierCfg{}
 	if r.Thorough() {
 		cfg.execs, cfg.perms = allExec, allPerm
-		for j := 0; j < 64; j++ {
-			cfg.lanes = append(cfg.lanes, j)
-		}
+		// locality at one lane + equivariance under S_64 gives locality at every lane
+		// (conjugate with a permutation that moves the lane); nine lanes are run anyway
+		cfg.lanes = []int{0, 1, 15, 21, 31, 32, 47, 62, 63}
 	} else {
 		cfg.execs = pickExecs(allExec, "zero", "all", "bit0", "bit31", "bit63", "prefix32", "suffix32", "prefix63", "suffix63", "prefix17", "suffix5", "alt5555", "altAAAA")
 		cfg.perms = pickPerms(allPerm, "swap(0,1)", "swap(17,18)", "swap(31,32)", "swap(62,63)", "rotate+1", "reverse", "swap-halves")
@@ -942,6 +970,19 @@ func main() {
 		unimpl[k] = len(v)
 	}
 	r.Cov["excluded_decodes_but_handler_not_implemented"] = unimpl
+	unimplLists, implLists := map[string]string{}, map[string]string{}
+	for k, v := range vd.Unimplemented {
+		unimplLists[k] = strings.Join(v, ", ")
+	}
+	for _, o := range vd.Ops {
+		k := fmt.Sprintf("%s/%s", o.Arch, fmtLabel(o))
+		if implLists[k] != "" {
+			implLists[k] += ", "
+		}
+		implLists[k] += fmt.Sprintf("%d %s (%d variants)", o.Opcode, o.Name, len(o.Cases))
+	}
+	r.Cov["excluded_not_implemented_opcodes"] = unimplLists
+	r.Cov["checked_vector_opcodes"] = implLists
 	r.Cov["excluded_opcode_values_without_decode_entry"] = vd.Undecodable
 	r.Cov["excluded_documented_cross_lane_exceptions"] = vd.Exceptions
 	r.Cov["excluded_scalar_exec_instructions"] = scalarExc
@@ -989,7 +1030,7 @@ func samples(ctx *wctx, d *discovery) []any {
 		lib.Permute(st.in2, st.in, &perm.P, false)
 		m.Run(c.Inst, st.in2, st.out2)
 		out = append(out, map[string]any{
-			"inst": c.label(), "encoding": hex.EncodeToString(c.Bytes[:c.Inst.ByteSize]), "exec": hx(exec), "perm": "swap(0,1)",
+			"inst": c.label(), "encoding": encHex(c), "exec": hx(exec), "perm": "swap(0,1)",
 			"run(s)":    fmt.Sprintf("lane0: src0=%#x dst %#x->%#x; lane1: src0=%#x dst %#x->%#x; VCC %s->%s", lib.V32(st.in, 0, lib.RegSrc0), lib.V32(st.in, 0, lib.RegDst), lib.V32(st.out, 0, lib.RegDst), lib.V32(st.in, 1, lib.RegSrc0), lib.V32(st.in, 1, lib.RegDst), lib.V32(st.out, 1, lib.RegDst), hx(st.in.VCC), hx(st.out.VCC)),
 			"run(pi.s)": fmt.Sprintf("lane0: src0=%#x dst %#x->%#x; lane1: src0=%#x dst %#x->%#x; VCC %s->%s", lib.V32(st.in2, 0, lib.RegSrc0), lib.V32(st.in2, 0, lib.RegDst), lib.V32(st.out2, 0, lib.RegDst), lib.V32(st.in2, 1, lib.RegSrc0), lib.V32(st.in2, 1, lib.RegDst), lib.V32(st.out2, 1, lib.RegDst), hx(st.in2.VCC), hx(st.out2.VCC)),
 		})
@@ -1081,7 +1122,29 @@ func replay(r *harness.Run, ctx *wctx, vd, sd *discovery) {
 	fmt.Sscanf(rc.ExecB, "0x%x", &execB)
 	st := ctx.st[c.Kind]
 	m := ctx.m[c.Op.Arch]
-	fmt.Printf("replay %s kind=%s encoding=%s pattern=%s EXEC=%s\n", c.label(), rc.Kind, hex.EncodeToString(c.Bytes[:c.Inst.ByteSize]), lib.PatternNames[rc.Pattern], hx(exec))
+	fmt.Printf("replay %s kind=%s encoding=%s pattern=%s EXEC=%s\n", c.label(), rc.Kind, encHex(c), lib.PatternNames[rc.Pattern], hx(exec))
+	if rc.Kind != "scalar" {
+		// written-out inputs and outputs of the base run for a few lanes
+		lib.Build(st.in, &c.Shape, rc.Pattern, exec, rc.Poison)
+		m.Run(c.Inst, st.in, st.out)
+		fmt.Printf("  base run: VCC %s -> %s, EXEC %s -> %s, s[%d:%d] %s -> %s, s[%d:%d](mask src) %s\n", hx(st.in.VCC), hx(st.out.VCC), hx(st.in.EXEC), hx(st.out.EXEC),
+			lib.SRegDst, lib.SRegDst+1, hx(lib.S64(st.in, lib.SRegDst)), hx(lib.S64(st.out, lib.SRegDst)), lib.SRegMask, lib.SRegMask+1, hx(lib.S64(st.in, lib.SRegMask)))
+		lanes := map[int]bool{0: true, 1: true, 31: true, 32: true, 63: true, rc.Lane: true}
+		for l := 0; l < 64; l++ {
+			if !lanes[l] {
+				continue
+			}
+			row := fmt.Sprintf("  lane %2d:", l)
+			for _, rg := range []struct {
+				n string
+				r int
+			}{{"addr v2:3", lib.RegAddr}, {"src0 v10:11", lib.RegSrc0}, {"src1 v20:21", lib.RegSrc1}, {"src2 v30:31", lib.RegSrc2}} {
+				row += fmt.Sprintf(" %s=%08x_%08x", rg.n, lib.V32(st.in, l, rg.r+1), lib.V32(st.in, l, rg.r))
+			}
+			row += fmt.Sprintf(" | dst v40:41 %08x_%08x -> %08x_%08x", lib.V32(st.in, l, lib.RegDst+1), lib.V32(st.in, l, lib.RegDst), lib.V32(st.out, l, lib.RegDst+1), lib.V32(st.out, l, lib.RegDst))
+			fmt.Println(row)
+		}
+	}
 	var got []string
 	for rep := 0; rep < 2; rep++ { // twice: the verdict must be deterministic
 		failures = map[string]*failure{}
@@ -1109,7 +1172,6 @@ func replay(r *harness.Run, ctx *wctx, vd, sd *discovery) {
 		}
 		got = append(got, strings.Join(s, "\n"))
 	}
-	_, _ = st, m
 	if got[0] != got[1] {
 		fmt.Println("INFRASTRUCTURE ERROR: nondeterministic replay")
 		os.Exit(2)
